@@ -30,7 +30,9 @@ PALETTE = {
              # results of the most recent loop with carried values at this level (fall back to arguments elsewhere)
              (("res", 0), ("res", 1)), (("res", 1), ("a", 3)),
              # a value computed earlier in an enclosing block by a "def" statement
-             (("a", 0), ("d",)), (("d",), ("a", 1))],
+             (("a", 0), ("d",)), (("d",), ("a", 1)),
+             # the counter of the enclosing loop, seen from a loop nested in it
+             (("oiv",), ("a", 1)), (("a", 0), ("oivk", 3))],
     "acc2": [(("a", 0), ("a", 1), ("k", 5)), (("a", 3), ("a", 1), ("k", 5)), (("iv",), ("a", 1), ("a", 2))],
     "rocc1": [(("a", 0), ("a", 1), ("a", 2), ("a", 3)), (("a", 0), ("a", 3), ("a", 2), ("a", 3)), (("a", 2), ("a", 1), ("a", 2), ("a", 1)),
               (("iv",), ("a", 1), ("a", 2), ("a", 3)), (("a", 0), ("a", 1), ("a", 2), ("ivk", 5))],
@@ -105,7 +107,12 @@ class Render:
             r = self.fresh("m")
             self.emit(f"{r} = arith.muli {base}, {c} : i32", ind)
             return r
-        iv = self.ivs[-1] if self.ivs else None
+        if k in ("oiv", "oivk"):
+            # the counter of the loop AROUND the innermost one (falls back to the innermost / an argument)
+            iv = self.ivs[-2] if len(self.ivs) > 1 else (self.ivs[-1] if self.ivs else None)
+            k = "iv" if k == "oiv" else "ivk"
+        else:
+            iv = self.ivs[-1] if self.ivs else None
         if iv is None:
             # outside loops iv-based values degrade to an argument-based computation (still a pure chain)
             base = "%a3"
@@ -527,6 +534,16 @@ def program_set(tier, seed, want_calls=True):
                     add((("cfg", "acc1", pt), ("for", "args", body)))
                     if not quick:
                         add((("cfg", "acc1", pw), ("for", "c01", body)))
+    # two nested loops that both start with a configuration: the inner one computed from what the outer loop provides
+    # (its counter, its carried value, a value of the outer configuration's input chain)
+    for outer in ("for", "forc"):
+        for bk in ("args", "k13"):
+            for po in (0, 3, 7):
+                for pi in (13, 14, 6, 7, 8, 3):
+                    inner = ("for", "args" if bk == "k13" else "c01", (("cfg", "acc1", pi),))
+                    add(((outer, bk, (("cfg", "acc1", po), inner)),))
+                    if not quick:
+                        add((("cfg", "acc1", 0), (outer, bk, (("cfg", "acc1", po), inner, ("cfg", "acc1", 1)))))
     n_exh = len(progs)
     # sampled: two accelerators, bigger, deeper
     target = 500 if quick else 4000
